@@ -197,6 +197,11 @@ def hist_to_vector(cfg, hist, vid, fam, cont, n):
             nch = e["c"] + 1
     never = set(cfg.get("never", []))
     scripts = [dict(steps=[], tail=("never" if c in never else "done"), tail_ok=True) for c in range(nch)]
+    if cfg.get("stream") or fam == "co":
+        # what the scripted streams report as size_hint (four valid kinds, script.rs); nothing observable may depend on it
+        hk = int(hashlib.sha1(str(vid).encode()).hexdigest(), 16)
+        for c in range(nch):
+            scripts[c]["hint"] = (hk >> (2 * (c % 16))) & 3
     cmds = []
     cur_fires = []
     prev = None
